@@ -13,7 +13,10 @@ Desc(e) == [i \in 1..Len(e.c.desc) |-> [name |-> e.c.desc[i].name, key |-> e.c.d
                                         role |-> e.c.desc[i].role, type |-> e.c.desc[i].type]]
 AliasFree(d) == \A i \in 1..Len(d) : Len(d[i].aliases) = 0
 NoInlineStruct(d) == \A i \in 1..Len(d) : ~(d[i].role = "inline" /\ d[i].type # "inline_map")
+\* hand-written targets with an EMBEDDED inline struct (alias-free, zero-valued): what yaml.v3 gives
+EmbeddedOK(e) == ~e.panic /\ ~e.err /\ ~e.yerr /\ EqUnord(e.ordered, e.yamlv3)
 EventOK(e) ==
+    IF "kind" \in DOMAIN e /\ e.kind = "embedded" THEN EmbeddedOK(e) ELSE
     LET d == Desc(e) IN
     /\ ~e.panic
     /\ ~e.err                                                        \* well-typed input never fails
